@@ -459,3 +459,20 @@ def sorted_items_tuple_keys(d):
     for k, v in sorted(d.items()):
         out.append(k)
     return out
+
+
+def extend_views(d, xs):
+    # round 4: list.extend of a dict view; a `for` over a generator expression; de-duplicating extend from a values view
+    out = list(xs)
+    out.extend(d.values())
+    n = 0
+    for v in (x + 1 for x in xs):
+        n += v
+    seen = []
+    seen.extend(v for v in d.values() if v not in seen)
+    return out, n, seen
+
+
+def invert_classes(classes):
+    # round 4 (C10): {glyph: class for class, glyphs in classes.items() for glyph in glyphs} over a symbolic dict
+    return {g: n for n, glyphs in classes.items() for g in glyphs}
